@@ -128,6 +128,9 @@ type CaseCfg struct {
 	RegisterAlways bool
 	// Directive: when set, the source carries ";;;;" directives selecting this subset (Opts is only the base config)
 	Directive *OptSet
+	// StrayOptimize: the general "optimize" key written directly into CompileOptions (1: true, 2: false) next to the four
+	// individual switches. Only Optimizations(...) and the directive interpret that name; in the map it selects nothing.
+	StrayOptimize int
 }
 
 // EffectiveOpts: the optimization subset in force for the compilation.
@@ -152,6 +155,9 @@ func (c CaseCfg) String() string {
 	}
 	if len(c.Stateless) > 0 {
 		s += fmt.Sprintf(" stateless=%v", c.Stateless)
+	}
+	if c.StrayOptimize != 0 {
+		s += fmt.Sprintf(" CompileOptions[optimize]=%v", c.StrayOptimize == 1)
 	}
 	return s
 }
@@ -186,6 +192,9 @@ func buildConfig(c CaseCfg, cfgRec *Recorder) *eval.Config {
 		cc = eval.NewConfig(c.OptionFuncs...)
 	} else {
 		c.Opts.Apply(cc)
+	}
+	if c.StrayOptimize != 0 {
+		cc.CompileOptions[eval.Optimize] = c.StrayOptimize == 1
 	}
 	switch c.Events {
 	case 1:
